@@ -123,18 +123,27 @@ Section MoreLazy.
     { split; [exact Hinv'|]. split; [|split].
       - intros t pos ser label act Hs. change (slot_at w2 t pos ser (SObs label act)) in Hs. eapply Hna. apply Hsl. exact Hs.
       - intros q x0 Hx. rewrite LO in Hx. destruct (Nat.eqb q p); [discriminate Hx|eauto].
-      - intros b' x0 Hx. rewrite Gw in Hx. destruct (Nat.eq_dec b' b) as [->|Hne]; [rewrite Gb2 in Hx; discriminate Hx|]. rewrite Gb in Hx by exact Hne. eauto. }
+      - split; [exact (proj1 Hal)|]. intros b' x0 Hx. rewrite Gw in Hx. destruct (Nat.eq_dec b' b) as [->|Hne]; [rewrite Gb2 in Hx; discriminate Hx|]. rewrite Gb in Hx by exact Hne. exact (proj2 Hal _ _ Hx). }
     split; [exact HSC'|]. split.
     - exists {| L.lenv := L.lenv s; L.ltr := fun q => if Nat.eqb q p then None else L.ltr s q |}. split; [split|].
       + intros q prq Hq. unfold w' in Hq; cbn [set_props w_props] in Hq. rewrite lookup_bind, Hpr in Hq. cbn [L.lenv].
         destruct (Nat.eqb_spec q p) as [->|]; [inversion Hq; subst prq; exact (R1 _ _ Hp)|auto].
       + intros q. cbn [L.ltr]. rewrite LO. destruct (Nat.eqb q p); [reflexivity|apply R2].
       + intros q t Ht. cbn [L.ltr L.lenv] in *. destruct (Nat.eqb q p); [discriminate Ht|eauto].
-    - unfold PropGrowLazy.LREG in *. change (w_evps w') with (w_evps w2). rewrite Ev2. rewrite (Hal b x Hbx).
-      destruct (nth_error (w_evps w) ev) as [st|] eqn:Hst; [|rewrite Hst; exact I].
-      rewrite nth_upd_same by (apply nth_error_Some; congruence). cbn [ep_registry].
+    - unfold PropGrowLazy.LREG in *. change (w_evps w') with (w_evps w2).
+      (* the registry of ev: filtered if the dead binding belonged to ev, untouched if it belonged to another evaluator *)
+      assert (Hev' : exists f : nat * nat -> bool, nth_error (w_evps w2) ev =
+                 option_map (fun st => {| ep_registry := filter f (ep_registry st); ep_next := ep_next st |}) (nth_error (w_evps w) ev)).
+      { rewrite Ev2. destruct (nth_error (w_evps w) (b_evp x)) as [ep0|] eqn:He0.
+        - destruct (Nat.eq_dec (b_evp x) ev) as [E|Hne].
+          + exists (fun q => negb (Nat.eqb (fst q) (b_regid x))). rewrite <- E, He0. rewrite nth_upd_same by (apply nth_error_Some; congruence). reflexivity.
+          + exists (fun _ => true). rewrite nth_upd_other by exact Hne. destruct (nth_error (w_evps w) ev) as [[rg nx]|]; [|reflexivity]. cbn [option_map ep_registry ep_next].
+            assert (Ef : forall l : list (nat * nat), filter (fun _ => true) l = l) by (induction l as [|a l IH]; cbn; [reflexivity|rewrite IH; reflexivity]). rewrite Ef. reflexivity.
+        - exists (fun _ => true). destruct (nth_error (w_evps w) ev) as [[rg nx]|]; [|reflexivity]. cbn [option_map ep_registry ep_next].
+          assert (Ef : forall l : list (nat * nat), filter (fun _ => true) l = l) by (induction l as [|a l IH]; cbn; [reflexivity|rewrite IH; reflexivity]). rewrite Ef. reflexivity. }
+      destruct Hev' as (f & Hev'). rewrite Hev'.
+      destruct (nth_error (w_evps w) ev) as [st|] eqn:Hst; [|exact I]. cbn [option_map ep_registry].
       destruct HR as (ND & HC & HB & HE).
-      set (f := fun q : nat * nat => negb (Nat.eqb (fst q) (b_regid x))).
       assert (HLZ : forall b', lz w' b' = None \/ lz w' b' = lz w b') by (intros b'; rewrite LZ; destruct (Nat.eqb b' b); auto).
       pose proof (regs_sub w w' f HLZ (ep_registry st)) as HSub.
       assert (Hnp : forall q, In q (regs_of w' (filter f (ep_registry st))) -> q <> p).
@@ -170,7 +179,7 @@ Section MoreLazy.
 
   (* ---- histories with resets ---- *)
   Definition grow_op_lazy2 (w : world) (o : op) : Prop :=
-    match o with PReset _ => True | _ => PropGrowLazy.grow_op_lazy ev w o end.
+    match o with PReset _ => True | _ => PropGrowLazy.grow_op_lazy w o end.
 
   Theorem lazy_grow2_step f w o w' :
     LSC w -> LSND w -> LREG w -> grow_op_lazy2 w o -> step1 fn rtl (S f) w o = (w', None) -> LSC w' /\ LSND w' /\ LREG w'.
@@ -210,8 +219,8 @@ Section MoreLazy.
       PropCheck.den_node fn (values w') (b_root x) = Some z -> pr_value pr = z.
   Proof.
     intros Hok w He H st Hst.
-    destruct (lazy_grow2_coherent f ops world0 (PropGrowLazy.LSC_world0 ev) (PropGrowLazy.LSND_world0 fn) (PropGrowLazy.LREG_world0 ev ev_pos) Hok) as (HSC & HS & HR).
+    destruct (lazy_grow2_coherent f ops world0 (PropGrowLazy.LSC_world0 ev ev_pos) (PropGrowLazy.LSND_world0 fn) (PropGrowLazy.LREG_world0 ev ev_pos) Hok) as (HSC & HS & HR).
     change (LSC w) in HSC. change (LSND w) in HS. change (LREG w) in HR. unfold PropGrowLazy.LREG in HR. rewrite Hst in HR. destruct HR as (ND & HC & _ & _).
-    destruct (lazy_evalall_consistent fn rtl ev ev_pos (S f) w e st w' HSC (PropGrowLazy.LCOH_of_LSND fn ev ev_pos w (proj1 HSC) HS) He Hst ND HC H) as (_ & _ & R). exact R.
+    destruct (lazy_evalall_consistent fn rtl ev (S f) w e st w' HSC (PropGrowLazy.LCOH_of_LSND fn ev ev_pos w (proj1 HSC) HS) He Hst ND HC H) as (_ & _ & R). exact R.
   Qed.
 End MoreLazy.
